@@ -20,6 +20,8 @@ pub struct Mon {
     pub c12: bool,
     pub c16: bool,
     pub c20: bool,
+    /// every executed stableswap hop is priced from the reserves it actually met
+    pub c19: bool,
 }
 
 /// One executed swap: a direct swap, one hop of a route, or the internal swap of a single-asset deposit
@@ -551,6 +553,73 @@ pub fn mon_c03(_sim: &Sim, step: &Step, st: &mut Stats) -> Result<(), String> {
     for x in execs.iter() {
         st.bump(&format!("c03: {} swaps", x.path));
         check_swap_value(x, st, &step.describe())?;
+    }
+    Ok(())
+}
+
+// ------------------------------------------------------------------------------------------------
+// C19 in histories: what every executed stableswap swap - direct, each hop of a route (also when a
+// route comes back to a pool it has already traded on), the internal swap of a one-asset deposit -
+// delivered, against the exact solution of the invariant on the reserves that hop actually met
+
+pub fn mon_c19(_sim: &Sim, step: &Step, st: &mut Stats) -> Result<(), String> {
+    if !step.ok() {
+        return Ok(());
+    }
+    let (execs, _) = swap_execs(step).map_err(|e| format!("[C19] {}: cannot observe the executed swaps: {e}", step.describe()))?;
+    let mut seen: BTreeSet<String> = BTreeSet::new();
+    for x in execs.iter() {
+        let revisit = !seen.insert(x.before.id.clone());
+        let amp = match x.before.kind {
+            Kind::Ss { amp } => amp,
+            _ => continue,
+        };
+        let p = &x.before;
+        if !p.all_reserves_positive() || x.offer == 0 {
+            continue;
+        }
+        let net = |g: &BigUint| -> BigUint {
+            let g128 = u128::try_from(g.clone()).unwrap_or(u128::MAX);
+            let fees: u128 = fee_floor(g128, p.swap_fee) + fee_floor(g128, p.protocol_fee) + fee_floor(g128, p.burn_fee) + p.extra_fees.iter().map(|s| fee_floor(g128, *s)).sum::<u128>();
+            big(g128.saturating_sub(fees))
+        };
+        let (lo_m2, _) = exact::exact_swap_bracket(&p.reserves, &p.decimals, amp, x.oi, x.ai, x.offer.saturating_sub(2), 9);
+        let (_, hi_p2) = exact::exact_swap_bracket(&p.reserves, &p.decimals, amp, x.oi, x.ai, x.offer.saturating_add(2), 9);
+        let lower_g = if lo_m2 > big(2) { &lo_m2 - big(2) } else { BigUint::zero() };
+        let upper_g = (&hi_p2 + big(2)).min(big(p.reserves[x.ai]));
+        // one more unit per side for the floors of the fee split
+        let lower = { let n = net(&lower_g); if n > big(1) { n - big(1) } else { BigUint::zero() } };
+        let upper = net(&upper_g) + big(1);
+        let got = big(x.ret);
+        st.bump(&format!("c19: {} stableswap swaps priced", x.path));
+        if revisit {
+            st.bump("c19: hop on a pool the same route already traded on");
+            st.mark();
+        }
+        if got >= lower && got <= upper {
+            continue;
+        }
+        let dev = if got > upper { &got - &upper } else { &lower - &got };
+        let skew = {
+            let mut a = p.reserves.clone();
+            a[x.oi] = a[x.oi].saturating_add(x.offer);
+            crate::props::c19::skew_of(&a, &p.decimals).max(crate::props::c19::skew_of(&p.reserves, &p.decimals))
+        };
+        let sz = crate::props::c19::size_micro(&p.reserves, &p.decimals);
+        let msg = format!(
+            "[C19] {}: {} swap on stableswap {} (amp {amp}, reserves {:?}, decimals {:?}) of {} delivered {} but the exact invariant on these reserves allows [{lower}, {upper}] after fees",
+            step.describe(),
+            x.path,
+            p.id,
+            p.reserves,
+            p.decimals,
+            x.offer,
+            x.ret
+        );
+        match crate::props::c19::ss_known_key(amp, skew, &sz, &dev, &big(p.reserves[x.ai])) {
+            Some(k) => st.known(k, || msg),
+            None => return Err(msg),
+        }
     }
     Ok(())
 }
